@@ -402,13 +402,15 @@ func runC20(c *core.Ctx) {
 		}
 	}
 	if c.Whole("airtime-cr") {
+		// coding rates other than 1..4 are outside the property: refused (as the library does) or not, the
+		// call must come back
 		for _, cr := range []int{0, 5, -1, 100} {
 			c.Eval(2)
-			if _, err := airtime.CalculateLoRaPayloadSymbolNumber(10, 7, airtime.CodingRate(cr), true, false); err == nil {
-				c.Violate("C20|airtime|bad-cr-accepted", "coding rate %d accepted", cr)
-			}
-			if _, err := airtime.CalculateLoRaAirtime(10, 7, 125, 8, airtime.CodingRate(cr), true, false); err == nil {
-				c.Violate("C20|airtime|bad-cr-accepted", "coding rate %d accepted by CalculateLoRaAirtime", cr)
+			if p, msg := core.Guard(func() {
+				_, _ = airtime.CalculateLoRaPayloadSymbolNumber(10, 7, airtime.CodingRate(cr), true, false)
+				_, _ = airtime.CalculateLoRaAirtime(10, 7, 125, 8, airtime.CodingRate(cr), true, false)
+			}); p {
+				c.Violate("C20|airtime|bad-cr-panic", "coding rate %d: %s", cr, msg)
 			}
 		}
 	}
@@ -422,9 +424,9 @@ func runC20(c *core.Ctx) {
 				if err != nil || v != eirpSpec[i] {
 					c.Violate(fmt.Sprintf("C20|eirp|table|index=%d", i), "GetTXParamSetupEIRP(%d) = %v err %v, spec %v", i, v, err, eirpSpec[i])
 				}
-			} else if err == nil {
-				c.Violate("C20|eirp|bad-index-accepted", "GetTXParamSetupEIRP(%d) = %v", i, v)
 			}
+			// an index byte above 15 has no table entry (the field is 4 bits wide): an error, as in the
+			// library, or anything else that returns - the property defines no value for it
 			c.Shape("eirp-index", i)
 		}
 		for i, e := range eirpSpec {
